@@ -1910,70 +1910,60 @@ class JobsCursor:
             Implicit and explicit sp prefixes are equivalent and can be treated
             identically for this purpose.
             """
-            return key.split(".", 1)[-1]
+            prefix, _, stripped_key = key.partition(".")
+            return stripped_key if prefix in ("sp", "doc") and stripped_key else key
 
         def _is_doc_key(key):
             """Check if a key is a document key."""
             return "." in key and key.split(".", 1)[0] == "doc"
 
-        if isinstance(key, str):
-            stripped_key = _strip_prefix(key)
+        _no_default = object()
 
+        def _get(mapping, key, default=_no_default):
+            """Get the value for a (possibly nested, dotted) key."""
+            try:
+                for token in key.split("."):
+                    mapping = mapping[token]
+            except (KeyError, TypeError):
+                if default is _no_default:
+                    raise KeyError(key)
+                return default
+            return mapping
+
+        def _getter(key, *default):
+            """Return a function that looks up key in the right namespace of a job."""
+            stripped_key = _strip_prefix(key)
+            if _is_doc_key(key):
+                return lambda job: _get(job.document, stripped_key, *default)
+            return lambda job: _get(job.cached_statepoint, stripped_key, *default)
+
+        if isinstance(key, str):
             if default is None:
                 if _filter is None:
                     _filter = {key: {"$exists": True}}
                 else:
                     _filter = {"$and": [{key: {"$exists": True}}, _filter]}
-
-                if _is_doc_key(key):
-
-                    def keyfunction(job):
-                        return job.document[stripped_key]
-
-                else:
-
-                    def keyfunction(job):
-                        return job.cached_statepoint[stripped_key]
-
+                keyfunction = _getter(key)
             else:
-                if _is_doc_key(key):
-
-                    def keyfunction(job):
-                        return job.document.get(stripped_key, default)
-
-                else:
-
-                    def keyfunction(job):
-                        return job.cached_statepoint.get(stripped_key, default)
+                keyfunction = _getter(key, default)
 
         elif isinstance(key, Iterable):
-            sp_keys = []
-            doc_keys = []
-            for k in key:
-                if _is_doc_key(k):
-                    doc_keys.append(_strip_prefix(k))
-                else:
-                    sp_keys.append(_strip_prefix(k))
-
+            key = list(key)
             if default is None:
                 if _filter is None:
                     _filter = {k: {"$exists": True} for k in key}
                 else:
                     _filter = {"$and": [{k: {"$exists": True} for k in key}, _filter]}
-
-                def keyfunction(job):
-                    return tuple(
-                        [job.cached_statepoint[k] for k in sp_keys]
-                        + [job.document[k] for k in doc_keys]
-                    )
-
+                getters = [_getter(k) for k in key]
             else:
+                getters = [_getter(k, default) for k in key]
+            # State point values come first, followed by document values.
+            getters = [g for k, g in zip(key, getters) if not _is_doc_key(k)] + [
+                g for k, g in zip(key, getters) if _is_doc_key(k)
+            ]
 
-                def keyfunction(job):
-                    return tuple(
-                        [job.cached_statepoint.get(k, default) for k in sp_keys]
-                        + [job.document.get(k, default) for k in doc_keys]
-                    )
+            def keyfunction(job):
+                return tuple(getter(job) for getter in getters)
 
         elif key is None:
             # Must return a type that can be ordered with <, >
